@@ -56,6 +56,7 @@ pub struct Gen {
     en_reorder: bool,
     en_hold: bool,
     en_inject: bool,
+    en_junk_ack: bool,
     kinds: Vec<Kind>,
     last_slot: u8,
     last_struct: bool,
@@ -158,6 +159,7 @@ impl Gen {
             en_reorder: faults && f(&mut r, 70),
             en_hold: faults && f(&mut r, 80),
             en_inject: focus == Focus::Byzantine,
+            en_junk_ack: matches!(focus, Focus::Acks | Focus::Packing | Focus::Replication | Focus::Ticks) && faults && f(&mut r, 35),
             kinds,
             last_slot: 0,
             last_struct: false,
@@ -565,6 +567,18 @@ impl Gen {
             }
             if self.en_inject && self.r.chance(40) {
                 self.inject();
+            }
+            if self.en_junk_ack && self.r.chance(15) {
+                // Acknowledgements naming messages that were never sent (indices far above anything in
+                // flight): they must not change what the server considers received.
+                let client = self.r.below(nclients as usize) as u8;
+                let n = self.r.range(1, 4);
+                let mut bytes = vec![];
+                for _ in 0..n {
+                    let idx: u16 = 0x4000 + self.r.below(0xbfff) as u16;
+                    bytes.extend_from_slice(&idx.to_le_bytes());
+                }
+                self.steps.push(Step::Inject { client, channel: 0, bytes });
             }
             // life-cycle
             if self.en_conn && self.r.chance(12) {
